@@ -1,7 +1,7 @@
 (* Property C11 — TS packet header and adaptation field per ISO 13818-1 (theorems only; proofs in Proofs/). *)
 From Coq Require Import ZArith List.
 Require Import Base.Bits Base.Iter Base.Wr Gen.Types Model.Clock Model.Packet Spec.PesSpec Spec.PacketSpec
-  Proofs.ClockProofs Proofs.PacketProofs Proofs.PacketWrite Proofs.PacketRoundTrip Proofs.PacketExamples.
+  Proofs.ClockProofs Proofs.PacketProofs Proofs.PacketWrite Proofs.PacketRoundTrip Proofs.PacketRef Proofs.PacketExamples.
 Import ListNotations.
 Open Scope Z_scope.
 
@@ -46,3 +46,42 @@ Proof. exact parse_write_packet. Qed.
 Print Assumptions C11_parse_write.
 Example C11_parse_write_inhabited : wf_packet ex_packet.
 Proof. exact ex_packet_wf. Qed.
+
+(* writing any conformant packet yields its ISO 13818-1 reference encoding (Spec/PacketSpec.v: the field list of
+   Tables 2-2 and 2-6, reserved bits 1, stuffing 0xFF), which is exactly 188 bytes *)
+Theorem C11_write_ref : forall p, wf_packet p -> write_packet p 188 = Ok (ref_packet_bytes p).
+Proof. exact write_ref_packet. Qed.
+Print Assumptions C11_write_ref.
+Example C11_write_ref_inhabited : wf_packet ex_packet /\ length (ref_packet_bytes ex_packet) = 188%nat.
+Proof. split; [exact ex_packet_wf | vm_compute; reflexivity]. Qed.
+
+(* the bit string the writer produces is the bit string of the reference field list, field for field *)
+Theorem C11_write_ref_bits : forall p, wf_packet p -> items_bits (packet_items p) = fbits (ref_packet_fields p).
+Proof. exact packet_bits. Qed.
+Print Assumptions C11_write_ref_bits.
+
+(* parsing the reference encoding of any conformant packet yields that packet *)
+Theorem C11_parse_ref : forall p, wf_packet p -> parse_packet_bytes (ref_packet_bytes p) = Ok (observed p).
+Proof. exact parse_ref_packet. Qed.
+Print Assumptions C11_parse_ref.
+
+(* a packet obtained from a conformant 188-byte buffer is re-emitted byte for byte *)
+Theorem C11_reemit : forall bs p, conformant bs -> parse_packet_bytes bs = Ok p -> write_packet p 188 = Ok bs.
+Proof. exact reemit_packet. Qed.
+Print Assumptions C11_reemit.
+Example C11_reemit_inhabited : conformant (ref_packet_bytes ex_packet) /\
+  exists p, parse_packet_bytes (ref_packet_bytes ex_packet) = Ok p.
+Proof.
+  split; [exists ex_packet; split; [exact ex_packet_wf | reflexivity]|].
+  eexists. vm_compute. reflexivity.
+Qed.
+
+(* finding K1: outside [conformant] — an adaptation field extension with trailing reserved bytes — re-emission changes
+   the extension length byte (the reserved bytes come back as adaptation field stuffing) *)
+Theorem C11_reemit_ext_refuted :
+  length k1_bytes = 188%nat /\
+  exists p, parse_packet_bytes k1_bytes = Ok p /\ write_packet p 188 = Ok k1_reemitted /\
+            k1_reemitted <> k1_bytes /\
+            firstn 6 k1_reemitted = firstn 6 k1_bytes /\ skipn 7 k1_reemitted = skipn 7 k1_bytes.
+Proof. exact k1_reemit_differs. Qed.
+Print Assumptions C11_reemit_ext_refuted.
